@@ -31,3 +31,33 @@ Lemma iter_refines_slice_count : forall c, In c shipped -> forall d s, d_inv d -
 Proof.
   intros c Hc d s Hinv Hs HK. rewrite kmers_length. rewrite (IterProofs.sl_view_length d s Hinv Hs). lia.
 Qed.
+
+(* ---- the whole graph: node sequences stored in a PackedDnaStringSet (BaseGraph.sequences), node i read through
+   `sequences.get(i)` (what get_node / get_node_kmer do), iterated with the packed NodeKmerIter ---- *)
+From DBG Require Import Packed.PackedSet Proofs.DnaStringMore.
+
+Theorem packed_graph_iter : forall c, In c shipped -> forall seqs : list dna,
+  Forall wf_dna seqs -> Forall (fun l => N.of_nat (length l) < 2 ^ 32) seqs ->
+  Forall (fun l => (kK c <= length l)%nat) seqs ->
+  exists p, p_add_all p_new seqs = Some p /\ p_len p = length seqs /\
+    forall i, (i < length seqs)%nat -> forall calls,
+      exists sl it outs, p_get p i = Some sl /\ ni_into_iter c (p_seq p) sl = Some it /\
+        ni_size_hint it = (length (nth i seqs []) - kK c + 1)%nat /\
+        ni_run c (p_seq p) sl it calls = Some outs /\
+        Forall2 (out_matches c) outs (spec_run (kmers (kK c) (nth i seqs [])) calls).
+Proof.
+  intros c Hc seqs W L HK.
+  destruct (p_add_all_ok seqs p_new [] p_ok_new W L) as [p [E O]]. cbn [app] in O.
+  exists p. split; [exact E|]. split; [destruct O as [_ [_ [Ls _]]]; exact Ls|].
+  intros i Hi calls.
+  destruct (p_get_spec p seqs i O Hi) as [sl [G [Hok [_ [Hview _]]]]].
+  assert (Hinv : d_inv (p_seq p)) by (destruct O as [I _]; exact I).
+  assert (Hlen : s_length sl = length (nth i seqs [])).
+  { rewrite <- Hview. symmetry. apply IterProofs.sl_view_length; [exact Hinv | exact Hok]. }
+  assert (HKi : (kK c <= length (nth i seqs []))%nat).
+  { rewrite Forall_forall in HK. apply HK. apply nth_In. exact Hi. }
+  destruct (iter_refines_slice c Hc (p_seq p) sl Hinv Hok ltac:(rewrite Hlen; exact HKi) calls) as (it & outs & H1 & H2 & H3 & H4).
+  exists sl, it, outs. split; [exact G|]. split; [exact H1|]. split.
+  - rewrite H2, Hview. rewrite kmers_length. lia.
+  - split; [exact H3|]. rewrite <- Hview. exact H4.
+Qed.
